@@ -233,6 +233,6 @@ def run(ctx):
     if snapshot(arg, {}) == before and got is not arg:
         raise MachineryError('binding self-test: in-place stub not exposed')
     ctx.stage('binding-selftest', ok=True)
-    ctx.cov['rule'] = ('every tree of depth <= 2 over 6 key classes x 7 leaf classes x {dict, non-dict Mapping} enumerated by TLC '
+    ctx.cov['rule'] = ('every tree of depth <= 2 over 6 key classes x 7 leaf classes x {dict, dict subclasses, non-dict Mapping} enumerated by TLC '
                        '(92k), each built with seeded concrete keys/values; all 35 keys x 6 spellings/positions x 6 value kinds; '
                        'random trees of depth <= 4 and width <= 5; result, key sets, result types and non-mutation (deep + identity)')
